@@ -75,6 +75,10 @@ func parseSMTInt(s string) (int64, bool) {
 
 // tryReplay returns true if the failing obligation was reproduced on the real code.
 func tryReplay(g *Global, o *Obligation, path string) bool {
+	if o.vc == nil || o.vc.fn == nil {
+		appendFile(path, "\nreplay: not applicable (the obligation relates call sites, it is not about one function's inputs)\n")
+		return false
+	}
 	terms, ok := valueQueries(o)
 	if ok && o.Result.Status != "sat" && o.Candidate == "" {
 		if r2 := solve(stripQuantified(o.script()), 5, nil); r2.Status == "sat" {
